@@ -580,7 +580,7 @@ LAWS = [
         required=('fn:ret', 'fn:raise', 'fn:raise_err', 'fn:ret_fresh_err', 'fn:raise_badstr', 'fn:reenter', 'listener:raise', 'setter-used'),
         rule='20 formulas touching a custom function, a variable, a cell, a range and built-ins, with every host callback (the function, 0-2 listeners per event kind) given a generated behaviour: return any value, return a fresh / subclassed / unprintable error object with any message, '
              'raise any of 18 exception types with any message (incl. canonical codes and none), raise an error singleton or a fresh error, raise an exception whose str() fails, call the setter 0-3 times with anything, re-enter parse(); both debug settings'),
-    Law('fuzz', check_fuzz, enumerate=enum_fuzz, shards=(4, 16), weight=fuzz_weight, nt_weight=fuzz_ntweight, key=lambda c: 'fuzz',
+    Law('fuzz', check_fuzz, enumerate=enum_fuzz, shards=(4, 16), weight=fuzz_weight, nt_weight=fuzz_ntweight, key=lambda c: 'fuzz', guard=3700,
         rule='atheris/libFuzzer campaigns on parse() with coverage instrumentation of hotxlfp and ply, a dictionary of all function names and lexemes, alternately an empty and a seeded corpus, the oracle inside the target '
              '(4 x 12000 executions in quick, 16 x 400000 in thorough); evaluations = executed units, distinct non-trivial counted conservatively as the number of coverage-increasing corpus entries'),
 ]
